@@ -59,7 +59,18 @@ class SymInt:
         self.depth = 0
 
     def function_ast(self, fn):
-        tree = ast.parse(textwrap.dedent(inspect.getsource(fn))).body[0]
+        try:
+            tree = ast.parse(textwrap.dedent(inspect.getsource(fn))).body[0]
+        except (IndentationError, SyntaxError):
+            # methods whose body contains flush-left multi-line strings cannot be dedented: locate the def in the module source
+            mod = inspect.getmodule(fn)
+            first = fn.__code__.co_firstlineno
+            tree = None
+            for node in ast.walk(ast.parse(inspect.getsource(mod))):
+                if isinstance(node, ast.FunctionDef) and node.name == fn.__name__ and node.lineno == first:
+                    tree = node
+            if tree is None:
+                raise Unsupported('function source not found')
         if not isinstance(tree, ast.FunctionDef):
             raise Unsupported('not a function')
         return tree
